@@ -486,7 +486,7 @@ Section PathProofs.
       reflexivity.
     - inversion H; subst. rewrite activate_pending, activate_conds, add_all_app. reflexivity.
     - unfold slice in H. destruct (sliced p); [discriminate|].
-      destruct (get_related cond p vs) as [rel m']. inversion H; subst. reflexivity.
+      destruct (slice_loop _ _ _ _ _ _ _ _) as [[sl m']|]; [|discriminate]. inversion H; subst. reflexivity.
     - inversion H; subst. reflexivity.
   Qed.
 
@@ -595,10 +595,10 @@ Section PathProofs.
   Qed.
 
   (* slicing never changes `conditions` (hence never the query), only the solver *)
-  Lemma slice_conds : forall (p q : path) vs, slice cond p vs = Some q -> conditions q = conditions p.
+  Lemma slice_conds : forall (p q : path) vs, slice cond vars p vs = Some q -> conditions q = conditions p.
   Proof.
     intros p q vs H. unfold slice in H. destruct (sliced p); [discriminate|].
-    destruct (get_related cond p vs) as [rel m']. inversion H; reflexivity.
+    destruct (slice_loop _ _ _ _ _ _ _ _) as [[sl m']|]; [|discriminate]. inversion H; reflexivity.
   Qed.
 
   Lemma extend_path_conds : forall (p parent : path), conditions (extend_path cond p parent) = conditions parent.
@@ -656,7 +656,8 @@ Section PathProofs.
       unfold SmtTextModel.activate. cbn [solver conditions pending]. apply (Hext [c0]). exact Hin.
     - unfold branch in H. destruct (pending p); [|discriminate]. inversion H; subst q. exact Hin.
     - inversion H; subst q. unfold SmtTextModel.activate. cbn [solver conditions]. apply Hext. exact Hin.
-    - unfold slice in H. destruct (sliced p); [discriminate|]. destruct (get_related cond p vs) as [rel m'].
+    - unfold slice in H. destruct (sliced p); [discriminate|].
+      destruct (slice_loop _ _ _ _ _ _ _ _) as [[sl m']|]; [|discriminate].
       inversion H; subst q. exact Hin.
     - inversion H; subst q. unfold extend_path, empty_path, solver_additions. cbn [solver conditions].
       intros c Hc. apply in_app_or in Hc. destruct Hc as [Hc|Hc]; [left; apply in_or_app; right; exact Hc|].
@@ -716,7 +717,61 @@ Section PathProofs.
   Qed.
 End PathProofs.
 
-Lemma slicing_keeps_conditions : forall (cond : Type) (p q parent : path cond) vs,
-  (slice cond p vs = Some q -> conditions q = conditions p) /\
+Section PendingProofs.
+  Variable cond : Type.
+  Variable cond_eqb : cond -> cond -> bool.
+  Variable simp : cond -> cond.
+  Variable is_true : cond -> bool.
+  Variable vars : cond -> list Z.
+  Notation path := (path cond).
+  Notation step := (step cond cond_eqb simp is_true vars).
+  Notation run := (run cond cond_eqb simp is_true vars).
+
+  (* ---- pending fork conditions are exactly what the conditions (hence the query) lack *)
+  Lemma run_pending : forall ops p q, run p ops = Some q ->
+    pending q = pending_after cond (pending p) ops.
+  Proof.
+    induction ops as [|o ops IH]; intros p q H; simpl in H.
+    - inversion H; subst. reflexivity.
+    - destruct (step p o) as [p'|] eqn:Hs; [|discriminate]. rewrite (IH _ _ H). clear IH H.
+      destruct o as [c b|c|c| |vs|s0]; simpl in Hs; cbn [pending_after].
+      + inversion Hs; subst. rewrite (append_pending cond cond_eqb simp is_true vars). reflexivity.
+      + unfold branch in Hs. destruct (pending p) eqn:Hp; [|discriminate]. inversion Hs; subst. reflexivity.
+      + unfold branch in Hs. destruct (pending p) eqn:Hp; [|discriminate]. inversion Hs; subst. reflexivity.
+      + inversion Hs; subst. reflexivity.
+      + unfold slice in Hs. destruct (sliced p); [discriminate|].
+        destruct (slice_loop _ _ _ _ _ _ _ _) as [[sl m']|]; [|discriminate]. inversion Hs; subst. reflexivity.
+      + inversion Hs; subst. reflexivity.
+  Qed.
+
+  Lemma handed_split : forall ops pend c, extends_active_from cond pend ops = true ->
+    ((In c pend \/ In c (handed cond ops)) <->
+     (In c (accumulated_from cond pend ops) \/ In c (pending_after cond pend ops))).
+  Proof.
+    induction ops as [|o ops IH]; intros pend c H.
+    - simpl. tauto.
+    - destruct o as [c0 b|c0|c0| |vs|s0]; simpl in H; unfold handed; simpl flat_map; cbn [accumulated_from pending_after].
+      + specialize (IH pend c H). simpl. tauto.
+      + specialize (IH pend c H). simpl. tauto.
+      + specialize (IH (pend ++ [c0])%list c H). rewrite in_app_iff in IH. simpl in IH |- *. tauto.
+      + specialize (IH [] c H). rewrite in_app_iff. simpl in IH |- *. tauto.
+      + specialize (IH pend c H). simpl. tauto.
+      + destruct pend; [|discriminate]. specialize (IH [] c H). simpl in IH |- *. tauto.
+  Qed.
+
+  Theorem handed_accumulated_pending : forall ops s0 p,
+    run (empty_path cond s0) ops = Some p -> extends_active_from cond [] ops = true ->
+    forall c, In c (handed cond ops) <-> In c (accumulated cond ops) \/ In c (pending p).
+  Proof.
+    intros ops s0 p H Hx c. rewrite (run_pending _ _ _ H). cbn [pending empty_path].
+    pose proof (handed_split ops [] c Hx) as E. simpl in E. unfold accumulated. split.
+    - intros Hc. apply E. right. exact Hc.
+    - intros Hc. destruct (proj2 E Hc) as [[]|Hh]. exact Hh.
+  Qed.
+
+End PendingProofs.
+
+Lemma slicing_keeps_conditions : forall (cond : Type) (vars : cond -> list Z) (p q parent : path cond) vs,
+  (slice cond vars p vs = Some q -> conditions q = conditions p) /\
   conditions (extend_path cond p parent) = conditions parent.
 Proof. intros. split; [apply slice_conds | apply extend_path_conds]. Qed.
